@@ -4,6 +4,26 @@ import IoraModel.Model.Xml
 namespace Iora.Driver.Xml
 open Iora Iora.Xml Iora.Driver
 
+/-- hex decoding without deep recursion (documents of a megabyte go through here) -/
+def hexNib (c : UInt8) : Option UInt8 :=
+  if 0x30 ≤ c && c ≤ 0x39 then some (c - 0x30)
+  else if 0x61 ≤ c && c ≤ 0x66 then some (c - 0x61 + 10)
+  else none
+
+def ofHexFast (s : String) : Option Bytes :=
+  if s = "-" then some []
+  else
+    let b := s.toUTF8
+    if b.size % 2 ≠ 0 then none
+    else Id.run do
+      let mut out : Array UInt8 := Array.mkEmpty (b.size / 2)
+      let mut ok := true
+      for i in [0:b.size / 2] do
+        match hexNib (b.get! (2 * i)), hexNib (b.get! (2 * i + 1)) with
+        | some h, some l => out := out.push (h * 16 + l)
+        | _, _ => ok := false
+      return if ok then some out.toList else none
+
 def showKind : Kind → String
   | .invalid => "Inv" | .eof => "Eof" | .xmlDecl => "Xd" | .doctype => "Dt" | .startElement => "S"
   | .endElement => "E" | .emptyElement => "Em" | .text => "T" | .cdata => "Cd" | .comment => "Cm" | .pi => "Pi"
@@ -23,7 +43,7 @@ def showErrKind : ErrKind → String
   | .domUnbalancedEnd => "domUnbalancedEnd" | .domUnclosed => "domUnclosed"
 
 def showBad : Bad → String
-  | .oob => "MODEL-OOB" | .fuel => "MODEL-FUEL"
+  | .oob => "MODEL-OOB" | .fuel => "MODEL-FUEL" | .dead => "MODEL-DEAD-BRANCH"
 
 def showToken (bs : Bytes) (t : Token) : String :=
   let n := if t.kind.hasName then showSlice t.name else "-"
@@ -48,12 +68,17 @@ def showPull (bs : Bytes) (r : List Token × Outcome) : String :=
     | .bad b => showBad b
   s!"{joinToks bs r.1} | {fin}"
 
-def showSax (bs : Bytes) (r : List Token × Outcome) : String :=
-  let fin := match r.2 with
-    | .accepted _ _ => "ok"
-    | .error e c _ => s!"fail err {showErr e c}"
-    | .bad b => showBad b
-  s!"{joinToks bs r.1} | {fin}"
+def showSaxFin (out : Outcome) : String :=
+  match out with
+  | .accepted _ _ => "ok"
+  | .error e c _ => s!"fail err {showErr e c}"
+  | .bad b => showBad b
+
+/-- bit `i` of the mask = the `i`-th member of `SaxCallbacks` holds a callable -/
+def regOf (mask : Nat) : Registered := fun sl =>
+  match Slot.all.idxOf? sl with
+  | some i => mask.testBit i
+  | none => false
 
 mutual
   def showNode : Node → String
@@ -75,6 +100,52 @@ def showDom : DomRes → String
   | .null e off l c => s!"null {showErrKind e} @{off}:{l}:{c}"
   | .bad b => showBad b
 
+/-- the null-sink variant: `build(parser, nullptr)` -/
+def showDom0 : DomRes → String
+  | .doc ch => s!"doc[{showNodes ch}]"
+  | .null _ _ _ _ => "null"
+  | .bad b => showBad b
+
+/-- a view or `~` for the null view -/
+def showOpt : Option Bytes → String
+  | some v => toHex v
+  | none => "~"
+
+def childIndex (ch : List Node) (name : Bytes) : String :=
+  match (Node.elem [] [] ch).childByName name with
+  | none => "~"
+  | some _ =>
+    match ch.findIdx? (fun c => match c with | .elem cn _ _ => cn == name | _ => false) with
+    | some i => toString i
+    | none => "?"
+
+/-- what the helper methods answer on one element: `getTextContent()`, `getAttribute(name)` for each of its own attribute names,
+`childByName(name)` (as the child's index) for each of its element children, and both look-ups with a name that does not occur -/
+def helperLine (name : Bytes) (n : Node) : String :=
+  match n with
+  | .elem _ as ch =>
+    let a := ",".intercalate (as.map fun (k, _) => showOpt (n.getAttribute k))
+    let c := ",".intercalate (ch.filterMap fun c => match c with
+      | .elem cn _ _ => some (childIndex ch cn)
+      | _ => none)
+    let miss : Bytes := [1]
+    s!"{toHex name} t={toHex n.getTextContent} a={a} c={c} m={showOpt (n.getAttribute miss)}{if (n.childByName miss).isSome then "!" else "~"}"
+  | _ => ""
+
+mutual
+  def helperWalk : Node → List String
+    | .elem n as ch => helperLine n (.elem n as ch) :: helperWalkList ch
+    | _ => []
+  def helperWalkList : List Node → List String
+    | [] => []
+    | n :: r => helperWalk n ++ helperWalkList r
+end
+
+def showHelpers : DomRes → String
+  | .doc ch => ";".intercalate (helperLine [] (.elem [] [] ch) :: helperWalkList ch)
+  | .null _ _ _ _ => "null"
+  | .bad b => showBad b
+
 def parseOpts : List String → Option Options
   | [a, b, c, d, e] =>
     match a.toNat?, b.toNat?, c.toNat?, d.toNat?, e.toNat? with
@@ -84,19 +155,37 @@ def parseOpts : List String → Option Options
 
 def step (st : Unit) : List String → Unit × String
   | [op, a, b, c, d, e, hx] =>
-    match parseOpts [a, b, c, d, e], ofHex hx with
+    match parseOpts [a, b, c, d, e], ofHexFast hx with
     | some o, some bs =>
       if op = "pull" then (st, showPull bs (tokens o bs))
-      else if op = "sax" then (st, showSax bs (tokens o bs))
+      else if op = "sax" then
+        let r := runSax (fun _ => true) o bs
+        (st, s!"{joinToks bs (r.1.map (·.2))} | {showSaxFin (tokens o bs).2}")
       else if op = "dom" then (st, showDom (domBuild o bs))
+      else if op = "dom0" then (st, showDom0 (domBuild o bs))
+      else if op = "domh" then (st, showHelpers (domBuild o bs))
       else (st, "bad-op")
     | _, _ => (st, "bad-op")
+  | ["saxm", m, a, b, c, d, e, hx] =>
+    match m.toNat?, parseOpts [a, b, c, d, e], ofHexFast hx with
+    | some m, some o, some bs =>
+      let r := runSax (regOf m) o bs
+      (st, s!"{joinToks bs (r.1.map (·.2))} | {showSaxFin (tokens o bs).2}")
+    | _, _, _ => (st, "bad-op")
   | ["dec", hx] =>
-    match ofHex hx with
+    match ofHexFast hx with
     | some bs =>
       match decodeEntities bs with
       | .ok out => (st, s!"ok {toHex out}")
       | .err e off => (st, s!"err {showErrKind e} {off}")
+      | .fuel => (st, "MODEL-FUEL")
+    | none => (st, "bad-op")
+  | ["dec0", hx] =>
+    match ofHexFast hx with
+    | some bs =>
+      match decodeEntities bs with
+      | .ok out => (st, s!"ok {toHex out}")
+      | .err _ _ => (st, "err")
       | .fuel => (st, "MODEL-FUEL")
     | none => (st, "bad-op")
   | ["utf8", n] =>
